@@ -1741,4 +1741,85 @@ theorem rfcWeekdayNum_inv {t : Str} {i : Nat} {r : Option Int} (h : rfcWeekdayNu
     · cases h
   · cases h
 
+/-! ## month, frequency, boolean -/
+
+theorem vMonthNew_digits (s : Str) (h : isDigitStr s = true) :
+    vMonthNew s = .ok (((ofDigits s : Nat) : Int), false) := by
+  unfold vMonthNew; simp [h]
+
+theorem vMonthNew_L (s : Str) (h : isDigitStr s = true) :
+    vMonthNew (s ++ ['L']) = .ok (((ofDigits s : Nat) : Int), true) := by
+  obtain ⟨hne, hd⟩ := (isDigitStr_iff s).1 h
+  have hnd : isDigitStr (s ++ ['L']) = false := by
+    cases hx : isDigitStr (s ++ ['L']) with
+    | false => rfl
+    | true =>
+      have := ((isDigitStr_iff _).1 hx).2 'L' (by simp)
+      exact absurd this (by decide)
+  unfold vMonthNew
+  simp only [hnd, Bool.false_eq_true, if_false, List.getLast?_append, List.getLast?_singleton,
+    Option.some_or, List.dropLast_concat, ne_eq, not_true_eq_false, false_and, pyInt_digits s hd hne]
+
+theorem intToStr_nat (n : Nat) : intToStr (n : Int) = natToStr n := by
+  unfold intToStr
+  have : ¬ ((n : Int) < 0) := by omega
+  simp [this]
+
+/-- what `rfcMonth t = some v` says about `t` -/
+theorem rfcMonth_inv {t : Str} {v : Int × Bool} (h : rfcMonth t = some v) :
+    ∃ s, isDigitStr s = true ∧ v.1 = ((ofDigits s : Nat) : Int) ∧
+      ((t = s ∧ v.2 = false) ∨ (t = s ++ ['L'] ∧ v.2 = true)) := by
+  unfold rfcMonth at h
+  simp only [] at h
+  have core : ∀ (r : Str) (leap : Bool),
+      (match r with
+        | [a] => if (isDigit a && decide (1 ≤ digitVal a)) = true then some (((digitVal a : Nat) : Int), leap) else none
+        | [a, b] => if (isDigit a && isDigit b && decide (1 ≤ num2 a b) && decide (num2 a b ≤ 12)) = true then
+            some (((num2 a b : Nat) : Int), leap) else none
+        | _ => none) = some v →
+      isDigitStr r = true ∧ v.1 = ((ofDigits r : Nat) : Int) ∧ v.2 = leap := by
+    intro r leap hr
+    split at hr
+    · next a =>
+      split at hr
+      · next hc =>
+        simp only [Bool.and_eq_true, decide_eq_true_iff] at hc
+        cases hr
+        exact ⟨by simp [isDigitStr, hc.1], by simp [ofDigits], rfl⟩
+      · cases hr
+    · next a b =>
+      split at hr
+      · next hc =>
+        simp only [Bool.and_eq_true, decide_eq_true_iff] at hc
+        cases hr
+        exact ⟨by simp [isDigitStr, hc.1.1.1, hc.1.1.2], by simp [num2], rfl⟩
+      · cases hr
+    · cases hr
+  split at h
+  · next hl =>
+    obtain ⟨h1, h2, h3⟩ := core _ _ h
+    refine ⟨t.dropLast, h1, h2, Or.inr ⟨?_, h3⟩⟩
+    obtain ⟨ys, hys⟩ := List.getLast?_eq_some_iff.1 hl
+    rw [hys]; simp
+  · next hl =>
+    obtain ⟨h1, h2, h3⟩ := core _ _ h
+    exact ⟨t, h1, h2, Or.inl ⟨rfl, h3⟩⟩
+
+theorem mem_frequencies_upper {s : Str} (h : s ∈ frequencies) : upper s = s := by
+  have : s = "SECONDLY".toList ∨ s = "MINUTELY".toList ∨ s = "HOURLY".toList ∨ s = "DAILY".toList ∨
+      s = "WEEKLY".toList ∨ s = "MONTHLY".toList ∨ s = "YEARLY".toList := by
+    simpa [frequencies, Gen.frequencies] using h
+  rcases this with rfl | rfl | rfl | rfl | rfl | rfl | rfl <;> decide
+
+/-- an RFC `weekdaynum` text is already upper case -/
+theorem rfcWeekdayNum_upper {t : Str} {i : Nat} {r : Option Int} (h : rfcWeekdayNum t = some (i, r)) :
+    upper t = t := by
+  obtain ⟨sgn, rel, wd, rfl, hs, _, hd, hw, _, _⟩ := rfcWeekdayNum_inv h
+  obtain ⟨x, y, rfl, _, _, _, hup, _⟩ := weekDays_facts hw
+  have h1 : upper sgn = sgn := by rcases hs with rfl | rfl | rfl <;> decide
+  have h2 : upper rel = rel := upper_dtChars rel (fun c hc => dtChar_digit c (hd c hc))
+  show List.map upperC (sgn ++ rel ++ [x, y]) = _
+  rw [List.map_append, List.map_append]
+  exact congr (congrArg _ (congr (congrArg _ h1) h2)) hup
+
 end ICal
